@@ -15,7 +15,8 @@ ASSUMPTIONS = ["before the upload the remote directory equals the previously upl
                "hypothesis: one upload step from an arbitrary consistent state)",
                "file names are SYMBOLIC: which old name equals which new name (swaps, chains, reuse of a removed name by a "
                "renamed or added file) is decided by the solver"]
-OUTSIDE = ["directories, symlinks, kind changes, executable bits, .bzrignore-upload rules, full uploads", "the temporary "
+OUTSIDE = ["directories with more than one file or nested directories, added directories, symlinks, kind changes, executable "
+           "bits, .bzrignore-upload rules, full uploads", "the temporary "
            "names of the two-stage rename colliding with real files (assumed unique, as the code says)",
            "more files than the bound"]
 
@@ -28,7 +29,8 @@ def ob_upload(cx):
     alpha = "abcd"
     files = []
     for i in range(n):
-        shape = cx.pick("shape%d" % i, ["unchanged", "modified", "removed", "added", "renamed", "renamed+modified", "removed_dir"])
+        shape = cx.pick("shape%d" % i, ["unchanged", "modified", "removed", "added", "renamed", "renamed+modified", "removed_dir",
+                                        "renamed_dir", "renamed_dir+inner_modified"])
         old = None if shape == "added" else cx.str("old%d" % i, 1, alpha)
         if shape in ("removed", "removed_dir"):
             new = None
@@ -43,7 +45,8 @@ def ob_upload(cx):
                 cx.assume(f["old"] != old)             # one file per name in the old tree
             if new is not None and f["new"] is not None:
                 cx.assume(f["new"] != new)             # ... and in the new tree
-        files.append(dict(i=i, shape=shape, old=old, new=new, changed=shape in ("modified", "renamed+modified", "added")))
+        files.append(dict(i=i, shape=shape, old=old, new=new, isdir=shape.startswith("renamed_dir"),
+                          changed=shape in ("modified", "renamed+modified", "added", "renamed_dir+inner_modified")))
 
     def old_text(f):
         return b"old-%d" % f["i"]
@@ -59,6 +62,10 @@ def ob_upload(cx):
         if f["shape"] == "removed_dir":
             remote.append([f["old"], DIR])
             remote.append([f["old"] + "/x", b"inside-%d" % f["i"]])
+        elif f["isdir"]:
+            # a renamed directory D with one file D/x inside (which keeps its name and may have new content)
+            remote.append([f["old"], DIR])
+            remote.append([f["old"] + "/x", old_text(f)])
         else:
             remote.append([f["old"], old_text(f)])
     revid_file = ["rev-old"]
@@ -85,6 +92,8 @@ def ob_upload(cx):
                 raise E.NoSuchFile("<remote file>")
             if find(b) is not None:
                 raise E.FileExists("<rename target>")
+            for kid in children(a):
+                kid[0] = b + "/x"                  # the content of a directory moves with it
             ent[0] = b
             log.append("rename")
 
@@ -113,6 +122,10 @@ def ob_upload(cx):
                 return
             ent = find(a)
             if ent is None:
+                if len(a) > 2 and T(a[len(a) - 2:] == "/x"):
+                    par = find(a[:len(a) - 2])
+                    if par is None or par[1] is not DIR:
+                        raise E.NoSuchFile("<remote directory of the file>")
                 remote.append([a, data])
             elif ent[1] is DIR:
                 raise E.ReadError("<remote path is a directory>")
@@ -143,10 +156,20 @@ def ob_upload(cx):
             removed_changes.append(Change(f, kind=("directory", None)))
             removed_changes.append(Change(f, path=(f["old"] + "/x", None), kind=("file", None)))
 
+    def renamed_change(f):
+        if f["isdir"]:
+            c = Change(f, kind=("directory", "directory"))
+            c.changed_content = False
+            return c
+        return Change(f)
+
     class Delta:
         removed = removed_changes
-        renamed = [Change(f) for f in files if f["shape"] in ("renamed", "renamed+modified")]
-        modified = [Change(f) for f in files if f["shape"] == "modified"]
+        renamed = [renamed_change(f) for f in files if f["shape"] in ("renamed", "renamed+modified") or f["isdir"]]
+        # a file that keeps its name inside a renamed directory is 'modified' (not 'renamed') with two different paths
+        modified = [Change(f) for f in files if f["shape"] == "modified"] + [
+            Change(f, path=(f["old"] + "/x", f["new"] + "/x"), kind=("file", "file")) for f in files
+            if f["shape"] == "renamed_dir+inner_modified"]
         added = [Change(f) for f in files if f["shape"] == "added"]
         kind_changed = []
         copied = []
@@ -167,7 +190,10 @@ def ob_upload(cx):
         @staticmethod
         def get_file_text(path):
             for f in files:
-                if f["new"] is not None and T(f["new"] == path):
+                if f["isdir"]:
+                    if len(path) == 3 and T(f["new"] + "/x" == path):
+                        return new_text(f)
+                elif f["new"] is not None and T(f["new"] == path):
                     return new_text(f)
             raise AssertionError("the uploader reads %r, which is not a file of the tree being uploaded" % (path,))
 
@@ -188,7 +214,12 @@ def ob_upload(cx):
     up = M.BzrUploader(Branch, Transport, None, Tree, "rev-new", quiet=True)
     up.is_ignored = lambda relpath: False
     up.upload_tree()
-    want = [(f["new"], new_text(f)) for f in files if f["new"] is not None]
+    want = []
+    for f in files:
+        if f["isdir"]:
+            want += [(f["new"], DIR), (f["new"] + "/x", new_text(f))]
+        elif f["new"] is not None:
+            want.append((f["new"], new_text(f)))
     cx.require(len(remote) == len(want), "after the upload the remote directory has %d files, the uploaded tree has %d" %
                (len(remote), len(want)))
     for name, text in want:
@@ -208,6 +239,8 @@ def ob_upload(cx):
     if any(f["shape"] == "removed_dir" and any(g["new"] is not None and T(g["new"] == f["old"]) for g in files if g is not f)
            for f in files):
         cx.cover("directory_replaced_by_file")
+    if any(f["shape"] == "renamed_dir+inner_modified" for f in files):
+        cx.cover("modified_inside_renamed_directory")
     cx.observe("ops", list(log))
 
 
@@ -215,6 +248,8 @@ def obligations(tier):
     q = tier == "quick"
     p = dict(nfiles=2 if q else 3)
     return [Ob("incremental_upload", ob_upload, [UP], p, 900 if q else 7200, 2 if q else 1,
-               ["rename_chain_or_swap", "name_reused", "renamed_and_modified", "directory_replaced_by_file"],
-               bounds="<= %(nfiles)d files (unchanged / modified / removed / added / renamed / renamed and modified) with symbolic "
+               ["rename_chain_or_swap", "name_reused", "renamed_and_modified", "directory_replaced_by_file",
+                "modified_inside_renamed_directory"],
+               bounds="<= %(nfiles)d entries (file unchanged / modified / removed / added / renamed / renamed and modified; directory with one "
+                      "file removed / renamed / renamed with the file inside modified) with symbolic "
                       "one-letter names over 4 letters: every pattern of coinciding old and new names" % p)]
